@@ -147,8 +147,8 @@ def _get_initial_guess(
     if isinstance(init, Sequence) and not isinstance(init, str):
         return ttb.ktensor(init).normalize("all")
     if isinstance(init, ttb.ktensor):
-        init.normalize("all")
-        return init
+        # Work on a copy: the caller's initial guess is not ours to re-normalize in place
+        return init.copy().normalize("all")
     if init == "random":
         factor_matrices = []
         for n in range(data.ndims):
